@@ -40,6 +40,8 @@ impl ProcessRegistry {
 
     pub async fn remove(&self, pid: &ExternalPid) -> Option<ProcessHandle> {
         let handle = self.by_pid.write().await.remove(pid);
+        #[cfg(edp_rs_verif)]
+        edp_client::verif::sched_point("registry::between_tables").await;
         // a process that is gone no longer holds its registered names
         self.by_name
             .write()
@@ -53,6 +55,8 @@ impl ProcessRegistry {
     }
 
     pub async fn register(&self, name: Atom, pid: ExternalPid) -> Result<()> {
+        #[cfg(edp_rs_verif)]
+        edp_client::verif::sched_point("registry::before_register").await;
         let mut names = self.by_name.write().await;
         match names.entry(name.clone()) {
             Entry::Occupied(_) => Err(Error::NameAlreadyRegistered(name)),
